@@ -900,7 +900,7 @@ class Ctx:
             out[name] = _zval(zv)
         return out
 
-    def nice_model(self, neg, margin_fn=None):
+    def nice_model(self, neg, margin_fn=None, generic=False):
         """After `pc & neg` was found sat: look for a model that replays robustly on float64 —
         inputs bounded, on a dyadic lattice (exactly representable) where possible, and violating the
         claim by a visible margin (a ladder of margins is tried, largest first)."""
@@ -938,8 +938,37 @@ class Ctx:
                 continue
             if r == z3.sat:
                 self._last_model = s.model()
+                if generic:
+                    self._genericise(s)
                 return self.model_of()
         return best
+
+    def _genericise(self, s):
+        """z3 completes unconstrained inputs with 0; a stub (spline, trend, noise) or a tie-dependent branch often
+        needs GENERIC values to show a divergence on the real code.  Greedily pin each input to a distinct dyadic
+        value where the constraints allow it."""
+        t_end = time.time() + 4.0
+        s.set("timeout", 400)
+        k = 0
+        for name, v in self.input_vars.items():
+            if name in self.int_inputs:
+                continue
+            if time.time() > t_end:
+                break
+            (idx,), = v.p.keys()
+            zv = self.z3vars[idx]
+            k += 1
+            g = Fraction(((k * 37 + 11) % 41) - 20, 8) + Fraction(k % 3, 16)
+            s.push()
+            s.add(zv == z3.Q(g.numerator, g.denominator))
+            try:
+                r = s.check()
+            except z3.Z3Exception:
+                r = z3.unknown
+            if r == z3.sat:
+                self._last_model = s.model()
+            else:
+                s.pop()
 
     def exact(self, v):
         return Sym.lift(v)
@@ -1164,6 +1193,7 @@ class Explorer:
         self.reach_checked = False
         self.margin_fn = None
         self.int_cases_cut = 0
+        self.generic_done = {}
         self.collect_depth = None   # cut paths at this many decisions and hand the subtrees out as `roots`
         self.roots = []
 
@@ -1249,11 +1279,21 @@ class Explorer:
                 st.discharged += 1
             elif r == "sat":
                 st.sat += 1
+                mf = (lambda mg, c=cond: self.margin_fn(c, mg)) if self.margin_fn else None
                 try:
-                    model = ctx.nice_model(neg, (lambda mg, c=cond: self.margin_fn(c, mg)) if self.margin_fn else None)
+                    model = ctx.nice_model(neg, mf)
                 except z3.Z3Exception:
                     model = ctx.model_of()
                 self.candidates.append((name, model, list(ctx.decisions), info))
+                # a second model of the same failing obligation with generic instead of default (zero) values
+                self.generic_done[name] = self.generic_done.get(name, 0) + 1
+                if self.generic_done[name] <= 3:
+                    try:
+                        gm = ctx.nice_model(neg, mf, generic=True)
+                        if gm != model:
+                            self.candidates.append((name, gm, list(ctx.decisions), info))
+                    except z3.Z3Exception:
+                        pass
             else:
                 st.inconclusive += 1
                 self.inconclusive.append((name, list(ctx.decisions)))
